@@ -7,6 +7,7 @@ import (
 	_ "verif/h/checks/c02"
 	_ "verif/h/checks/c03"
 	_ "verif/h/checks/c04"
+	_ "verif/h/checks/c07"
 	_ "verif/h/checks/c09"
 	_ "verif/h/checks/c10"
 	_ "verif/h/checks/c11"
@@ -17,5 +18,6 @@ import (
 	_ "verif/h/checks/c17sim"
 	_ "verif/h/checks/c18"
 	_ "verif/h/checks/c19"
+	_ "verif/h/checks/c20"
 	_ "verif/h/checks/shimtest"
 )
